@@ -119,6 +119,36 @@ Seam(const char *ty)
   return failures ? 1 : 0;
 }
 
+// C06 for ranges whose bin count max - min + 1 does not fit into IntType (full range of a type, or a signed range wider
+// than the positive half): only the approximate class can represent such ranges at all (100-entry table)
+template <class T>
+int
+WideRange(const char *ty)
+{
+  const T lo = std::numeric_limits<T>::min(), hi = std::numeric_limits<T>::max();
+  struct Case { T min, max; };
+  std::vector<Case> cases{{lo, hi}};
+  if (std::numeric_limits<T>::is_signed) cases.push_back({static_cast<T>(lo / 2 - 1000), static_cast<T>(hi / 2 + 1000)});
+  for (const auto &c : cases) {
+    ApproxZipfDistribution<T> d{c.min, c.max, 1.0};
+    std::mt19937_64 rng{7};
+    long at_min = 0, out_of_range = 0;
+    const int kN = 2000;
+    for (int i = 0; i < kN; ++i) {
+      const T v = d(rng);
+      at_min += v == c.min;
+      out_of_range += (v < c.min || v > c.max);
+    }
+    // with alpha = 1 and more than 2^31 bins the first bin has probability < 0.05
+    if (at_min > kN / 2 || out_of_range > 0) {
+      ++failures;
+      std::printf("REPLAY-FAIL: wide-range ApproxZipfDistribution<%s>(%lld, %llu, 1): the bin count max - min + 1 does not fit into the integer type; %ld of %d samples equal min, %ld are outside [min, max] (GetCDF(0) = %g)\n",
+                  ty, static_cast<long long>(c.min), static_cast<unsigned long long>(c.max), at_min, kN, out_of_range, d.GetCDF(0));
+    }
+  }
+  return failures ? 1 : 0;
+}
+
 // bounded: monotonicity across the seam (bin 99 -> bin 100) for ordinary bin counts; the recorded seam finding of the
 // pinned tree only shows for n of several 10^5, so any failure here is a new regression
 template <class T>
@@ -424,6 +454,7 @@ main(int argc, char **argv)
     const uint64_t word = std::strtoull(argv[7], nullptr, 0);
     DISPATCH(argv[3], (Bracket<T>(cls, argv[3], mn, mx, alpha, word)));
   }
+  if (mode == "wide-range" && argc >= 3) DISPATCH(argv[2], (WideRange<T>(argv[2])));
   if (mode == "seam-small" && argc >= 3) DISPATCH(argv[2], (SeamSmall<T>(argv[2])));
   if (mode == "seam" && argc >= 3) DISPATCH(argv[2], (Seam<T>(argv[2])));
   if (mode == "sweep" && argc >= 6) {
